@@ -414,3 +414,136 @@ func TestGocvReplay(t *testing.T) {
 		},
 	})
 }
+
+// ---------------------------------------------------------------------------
+// driver: (*Process).WaitUntilComplete — a waiter whose context has expired strands the helper goroutine while it
+// holds the completion lock (C02): every later wait then reports "not complete".
+
+func init() {
+	registerReplay(replayDriver{
+		name: "bpmn.Process.WaitUntilComplete after an expired wait",
+		match: func(ob *Oblig) bool {
+			return (ob.Class == "blocking" || ob.Class == "closure-inv") && strings.HasPrefix(ob.Func, "bpmn.(*Process).WaitUntilComplete")
+		},
+		build: func(ob *Oblig, m map[string]string) (string, string, bool) {
+			src := fmt.Sprintf(`package bpmn
+
+import (
+	"context"
+	"encoding/xml"
+	"os"
+	"testing"
+	"time"
+
+	"github.com/olive-io/bpmn/schema"
+)
+
+// generated by gocv for obligation %s
+func TestGocvReplay(t *testing.T) {
+	src, err := os.ReadFile("testdata/start.bpmn")
+	if err != nil {
+		t.Fatal(err)
+	}
+	var defs schema.Definitions
+	if err := xml.Unmarshal(src, &defs); err != nil {
+		t.Fatal(err)
+	}
+	proc, err := NewEngine().NewProcess(&defs)
+	if err != nil {
+		t.Fatal(err)
+	}
+	ctx := context.Background()
+	if err := proc.StartAll(ctx); err != nil {
+		t.Fatal(err)
+	}
+	live, stop := context.WithTimeout(ctx, 5*time.Second)
+	defer stop()
+	if !proc.WaitUntilComplete(live) {
+		t.Fatal("start -> end did not complete")
+	}
+	expired, cancel := context.WithCancel(ctx)
+	cancel()
+	for i := 0; i < 50; i++ {
+		proc.WaitUntilComplete(expired) // may return either answer: both alternatives are ready
+		again, stop := context.WithTimeout(ctx, time.Second)
+		ok := proc.WaitUntilComplete(again)
+		stop()
+		if !ok {
+			t.Fatalf("after %%d waits with an expired context, a completed instance is reported as not complete", i+1)
+		}
+	}
+}
+`, ob.Name)
+			return ".", src, true
+		},
+	})
+}
+
+// ---------------------------------------------------------------------------
+// driver: (*Process).StartAll — a process with two start events (C02): the second StartWith needs the completion
+// lock that the first one's monitor keeps until the instance completes.
+
+func init() {
+	registerReplay(replayDriver{
+		name: "bpmn.Process.StartAll with two start events",
+		match: func(ob *Oblig) bool {
+			return (strings.HasPrefix(ob.Func, "bpmn.(*Process).StartAll") || strings.HasPrefix(ob.Func, "bpmn.(*Process).StartWith")) &&
+				(strings.Contains(ob.Name, "completion-lock") || strings.Contains(ob.Name, "monitor"))
+		},
+		build: func(ob *Oblig, m map[string]string) (string, string, bool) {
+			src := fmt.Sprintf(`package bpmn
+
+import (
+	"context"
+	"encoding/xml"
+	"testing"
+	"time"
+
+	"github.com/olive-io/bpmn/schema"
+)
+
+const gocvTwoStarts = %s
+
+// generated by gocv for obligation %s
+func TestGocvReplay(t *testing.T) {
+	var defs schema.Definitions
+	if err := xml.Unmarshal([]byte(gocvTwoStarts), &defs); err != nil {
+		t.Fatal(err)
+	}
+	proc, err := NewEngine().NewProcess(&defs)
+	if err != nil {
+		t.Fatal(err)
+	}
+	ctx, cancel := context.WithTimeout(context.Background(), 5*time.Second)
+	defer cancel()
+	started := make(chan error, 1)
+	go func() { started <- proc.StartAll(ctx) }()
+	select {
+	case err := <-started:
+		if err != nil {
+			t.Fatal(err)
+		}
+	case <-time.After(2 * time.Second):
+		t.Fatal("StartAll of a process with two start events did not return within two seconds")
+	}
+	if !proc.WaitUntilComplete(ctx) {
+		t.Fatal("the instance with two start events did not complete")
+	}
+}
+`, "`"+twoStartsXML+"`", ob.Name)
+			return ".", src, true
+		},
+	})
+}
+
+const twoStartsXML = `<?xml version="1.0" encoding="UTF-8"?>
+<bpmn:definitions xmlns:bpmn="http://www.omg.org/spec/BPMN/20100524/MODEL" id="Definitions_two" targetNamespace="http://bpmn.io/schema/bpmn">
+  <bpmn:process id="Process_two" isExecutable="true">
+    <bpmn:startEvent id="s1"><bpmn:outgoing>f1</bpmn:outgoing></bpmn:startEvent>
+    <bpmn:startEvent id="s2"><bpmn:outgoing>f2</bpmn:outgoing></bpmn:startEvent>
+    <bpmn:endEvent id="e1"><bpmn:incoming>f1</bpmn:incoming></bpmn:endEvent>
+    <bpmn:endEvent id="e2"><bpmn:incoming>f2</bpmn:incoming></bpmn:endEvent>
+    <bpmn:sequenceFlow id="f1" sourceRef="s1" targetRef="e1" />
+    <bpmn:sequenceFlow id="f2" sourceRef="s2" targetRef="e2" />
+  </bpmn:process>
+</bpmn:definitions>`
